@@ -200,7 +200,7 @@ func doGenerateOCRA(scn, secret string, sa suiteArg, in otp.OCRAInput) Event {
 	e.Orc = ocraOracle(secret, sa, in)
 	invoke(&e, func() result {
 		s, err := otp.GenerateOCRA(secret, sa.s, in)
-		return result{val: []byte(s), err: err}
+		return result{val: []byte(s), err: err, ret: s}
 	})
 	return e
 }
